@@ -4,6 +4,7 @@ package prop
 import (
 	"verif/internal/core"
 	"verif/prop/c12"
+	"verif/prop/c16"
 )
 
 // Prop is one decidable property.
@@ -16,4 +17,5 @@ type Prop struct {
 // All maps property id to its check.
 var All = map[string]Prop{
 	"C12": {Level: "model_checking", Check: c12.Check, Replay: c12.Replay},
+	"C16": {Level: "model_checking", Check: c16.Check, Replay: c16.Replay},
 }
